@@ -646,7 +646,9 @@ impl Ctx {
   fn check_calls(&mut self, what: &str, calls: &[CallRec], preds: &BTreeMap<String, Pred>, complete: bool, case: &Value) {
     let mut per_did: BTreeMap<&str, u32> = BTreeMap::new();
     for c in calls {
-      self.rep.inc("handler_calls_checked");
+      if complete {
+        self.rep.inc("handler_calls_checked"); // counted for successful resolutions only: deterministic per seed
+      }
       *per_did.entry(c.did.as_str()).or_insert(0) += 1;
       match preds.get(&c.did) {
         None => self.rep.violation(
@@ -716,7 +718,6 @@ impl Ctx {
     };
     let order = vec![s.to_string()];
     let (out, log) = drive(fut, &b.sched, &order, hostile);
-    self.rep.count("polls", log.polls as u64);
     self.rep.count("gates_opened", log.opened.len() as u64);
     self.rep.count("silent_gate_opens", log.silent_opens as u64);
     let calls = b.sched.snapshot();
@@ -834,10 +835,10 @@ impl Ctx {
       let ranks: Vec<usize> = order.iter().filter_map(|d| distinct.iter().position(|x| *x == d)).collect();
       self.rep.distinct(
         "nontrivial",
-        &format!("multi|{}|n{}|d{}|{}|ff{:?}|{:?}", flavour.name(), strs.len(), distinct.len(), tags.join(""), first_fail, if ranks.len() <= 4 { ranks.clone() } else { ranks[..2].to_vec() }),
+        &format!("multi|{}|n{}|d{}|{}|ff{:?}", flavour.name(), strs.len(), distinct.len(), tags.join(""), first_fail),
       );
       if order.len() >= 2 {
-        self.rep.distinct("orders", &format!("{}|{}|{:?}", tags.join(""), strs.len(), ranks));
+        self.rep.distinct("orders", &format!("{}|{:?}", flavour.name(), ranks));
       }
     }
     let fut = match catch(|| b.res.resolve_multiple(list)) {
@@ -848,7 +849,6 @@ impl Ctx {
       }
     };
     let (out, log) = drive(fut, &b.sched, order, hostile);
-    self.rep.count("polls", log.polls as u64);
     self.rep.count("gates_opened", log.opened.len() as u64);
     self.rep.count("silent_gate_opens", log.silent_opens as u64);
     let calls = b.sched.snapshot();
@@ -932,7 +932,15 @@ impl Ctx {
       Err(e) => {
         self.rep.inc("multi_err");
         let (v, det) = err_info(e);
-        self.rep.inc(&format!("multi_err_{}", v));
+        {
+          // which failure surfaces first depends on the library's randomly seeded HashSet when several kinds are present
+          let kinds: BTreeSet<&str> = preds.values().filter(|p| p.fails()).map(|p| &p.tag()[..1]).collect();
+          if kinds.len() == 1 {
+            self.rep.inc(&format!("multi_err_{}", v));
+          } else {
+            self.rep.inc("multi_err_mixed_causes");
+          }
+        }
         if !any_fail {
           self.rep.violation(
             "multi-spurious-error",
@@ -1601,7 +1609,7 @@ fn main() {
      Resolver with harness handlers that log (entry, DID) and complete when the harness opens their gate; the futures are polled by \
      hand. non-trivial+distinct = classes (flavour, list length, distinct DIDs, multiset of per-DID outcome kinds \
      [unsupported/conversion failure/failing/swapping/CoreDocument/plain x gated/immediate], position of the first failure in the \
-     completion order, order ranks); 'orders' = distinct (outcome kinds, completion permutation) pairs; did:jwk classes = (key family, \
+     completion order); 'orders' = distinct (flavour, completion permutation of >= 2 pending handlers) pairs; did:jwk classes = (key family, \
      optional-member mask, whitespace style, private?)",
   );
   let mut rng = args.rng(20);
@@ -1692,7 +1700,7 @@ fn main() {
   }
 
   // ---- B. seeded random tables (with replacement of handlers) x random lists x every completion order
-  let n_tables = sc(if thorough { 6000 } else { 240 }) / args.nshards.max(1) + 1;
+  let n_tables = sc(if thorough { 160_000 } else { 4_000 }) / args.nshards.max(1) + 1;
   let lists_per_table = if scale < 1000 { 2 } else { 6 };
   let max_len = if thorough { 7 } else { 5 };
   let mut pair_idx = 0u64;
@@ -1724,12 +1732,12 @@ fn main() {
   }
 
   // ---- C. did:jwk
-  let n_jwk = sc(if thorough { 40_000 } else { 2_400 }) / args.nshards.max(1) + 9;
+  let n_jwk = sc(if thorough { 400_000 } else { 16_000 }) / args.nshards.max(1) + 9;
   cx.jwk_section(&args, &mut rng, n_jwk);
 
   // ---- D. the Send + Sync resolver driven from several threads
   if threads_on {
-    let rounds = sc(if thorough { 400 } else { 40 }) / args.nshards.max(1) + 1;
+    let rounds = sc(if thorough { 4_000 } else { 200 }) / args.nshards.max(1) + 1;
     for _ in 0..rounds {
       cx.threaded_round(&mut rng, if scale < 1000 { 2 } else { 4 });
     }
